@@ -316,6 +316,24 @@ pub fn check_text(inst: &Inst, twin: Option<&Inst>, text: &str, t: &mut Tally) {
         }
         _ => {}
     }
+    // the same list with every `key = value` value forwarded in an invisible group
+    if text.contains(" = ") {
+        if let Ok(ts) = text.parse::<proc_macro2::TokenStream>() {
+            if let Ok(gitems) = NestedMeta::parse_meta_list(vrt::run::group_values(ts, true)) {
+                t.evaluations += 1;
+                t.hit("grouped_lists");
+                let ggot = (inst.observe)(&gitems);
+                if ggot != want {
+                    t.violate(Violation {
+                        key: format!("C14 {} `{}` grouped :: {:?}", inst.name, text, ggot),
+                        what: format!("{} <- ({text}) with the values inside invisible groups: {ggot:?}, expected {want:?}", inst.name),
+                        case: json!({"inst": inst.name, "text": text}),
+                        detail: json!({}),
+                    });
+                }
+            }
+        }
+    }
     if got != want {
         let msg = match (&got, &want) {
             (Out::Panic(p), _) => format!("panicked: {p}"),
